@@ -126,9 +126,29 @@ def check(tier, seed, replay=None):
             for argv in (["--row-seperator=,"], ["--row-seperator=,", "--merge"], ["--row-seperator=", "--output-style=text"]):
                 plans.append({"policy": "ignore", "argv": ["--on-error=ignore"] + argv, "stdin": hexs(b'{"a":1} 2'), "regions": 0, "invalid": False,
                               "mode": mode, "nvals": 2})
+        # an input that ends inside a value is malformed like any other
+        for policy in ("ignore", "panic", "stderr", "stdout"):
+            for tail in (b'{"c": [1, 2', b'[1, 2', b'"abc', b'tru', b'{"a":', b'[{"a": "x'):
+                plans.append({"policy": policy, "argv": ["--on-error=" + policy], "stdin": hexs(b'{"a": 1}\n' + tail), "regions": 1, "invalid": False, "mode": "normal", "nvals": 1})
+        # rows longer than the buffer of standard output (a failed write of such a row is not seen again by the flush at exit), with and without limits
+        big = ('{"k": "%s"}\n' % ("x" * 3000)).encode() * 3
+        for mode in ("normal", "closed", "full"):
+            for argv in ([], ["--take=1"], ["--skip=1", "--take=1"], ["--sort-by=.k", "--take=1"], ["--take=2", "--output-style=text"], ["--merge"]):
+                plans.append({"policy": "ignore", "argv": ["--on-error=ignore"] + argv, "stdin": hexs(big), "regions": 0, "invalid": False, "mode": mode, "nvals": 3})
         # all-garbage inputs on an unwritable stdout under --on-error=stdout (the diagnostics are the only output)
         for mode in ("closed", "full"):
             plans.append({"policy": "stdout", "argv": ["--on-error=stdout"], "stdin": hexs(b"} ] : x\n"), "regions": 1, "invalid": False, "mode": mode, "nvals": 0})
+    # file operands: a file that does not exist is a failure of the run even when --take ends it before that file's turn
+    fdir = os.path.join(WORK, "c20-files-%d" % os.getpid())
+    os.makedirs(fdir, exist_ok=True)
+    good, good2, missing = os.path.join(fdir, "good.json"), os.path.join(fdir, "good2.json"), os.path.join(fdir, "missing.json")
+    open(good, "w").write('{"a": 1}\n{"a": 2}\n')
+    open(good2, "w").write('{"a": 3}\n')
+    file_plans = []
+    if not replay:
+        for argv, fails in (([good, good2], False), (["--take=1", good, good2], False), ([good, missing], True), (["--take=1", good, missing], True),
+                            (["--take=1", "--merge", good, missing], True), ([missing], True), (["--take=0", good, missing], True)):
+            file_plans.append((argv, fails))
     # in-process twin for the rows (same argv and input through jawk::go)
     twin = run_cases(jvh, [{"id": i, "argv": p["argv"], "stdin": p["stdin"]} for i, p in enumerate(plans)])
 
@@ -165,6 +185,16 @@ def check(tier, seed, replay=None):
         descs.append(d)
         if p["regions"] or p["invalid"] or p["mode"] != "normal":
             chk.nontrivial.add((tuple(p["argv"]), p["stdin"], p["mode"]))
+    for argv, fails in file_plans:
+        code, out, err = spawn(binary, argv, b"", "normal")
+        rec = RL.base_record("proc", "ignore", "plain", False, None, b"")
+        rec["exact"] = False
+        rec.update({"case": len(recs), "regions": 0, "want": "err" if fails else "ok", "code": code if code >= 0 else 255, "fd1": list(out), "fd2": list(err),
+                    "base": list(out), "checkrows": False})
+        recs.append(rec)
+        descs.append({"argv": [a.replace(fdir, "<dir>") for a in argv], "mode": "files", "regions": 0, "invalid": False,
+                      "observed": {"exit": code, "stdout": out.decode("utf-8", "replace")[:300], "stderr": err.decode("utf-8", "replace")[:300]}})
+    shutil.rmtree(fdir, ignore_errors=True)
     RL.validate(chk, recs, descs, "c20", 2 if quick else 8, "C20")
     chk.traces = len(recs)
     chk.evaluations = len(recs)
